@@ -340,7 +340,7 @@ class ExitStack:
         self._exit_callbacks.append(aexit)  # pyright: ignore[reportUnknownArgumentType]
         return exit
 
-    def callback(self, callback: C, *args: Any, **kwargs: Any) -> C:
+    def callback(self, callback: C, /, *args: Any, **kwargs: Any) -> C:
         """
         Registers an arbitrary callback to be called with arguments on unwinding
 
